@@ -17,6 +17,7 @@ Vals == << Whole(0), Whole(1), Whole(-2), Whole(10), Rat(1, 2), Rat(-5, 2), Whol
            Date(61), Date(44000), DateT(44000, 1, 2),
            T(<<>>), T(<<49>>), T(<<49, 48>>), T(<<97>>), T(<<65>>), T(<<97, 98>>), T(<<98>>), T(<<116, 114, 117, 101>>),
            T(<<70, 65, 76, 83, 69>>), T(<<32>>), T(<<233>>), T(<<97, 45, 98>>), T(<<97, 39, 98>>), T(<<45>>),      \* a-b  a'b  -
+           T(<<50, 48, 50, 48, 45, 48, 49, 45, 48, 49>>),                                                         \* 2020-01-01: a text, whatever it is compared with
            Bool(TRUE), Bool(FALSE), Blank >>
 NV == Len(Vals)
 \* dates before the fictitious 29 Feb 1900 against the numbers around their serials
